@@ -3,6 +3,7 @@ package props
 import (
 	"encoding/json"
 	"fmt"
+	"github.com/ipld/go-ipld-prime/node/basicnode"
 	"sort"
 	"strings"
 
@@ -33,6 +34,7 @@ type c20Case struct {
 	Gated      bool   `json:"event_level"`
 	PauseFirst bool   `json:"first_request_paused_by_block_hook,omitempty"` // the first request pauses itself at its first block and is never resumed
 	HoldFirst  bool   `json:"responders_first_send_stalls,omitempty"`       // the responder\'s first message stalls until all responses are queued behind it (they travel batched)
+	RespExt    bool   `json:"responder_hook_sends_extension,omitempty"`     // the responder's request hook sends extension data, so a request's first response may carry no link metadata
 	Tight      bool   `json:"responder_allowance_two_blocks,omitempty"`     // with HoldFirst: the responder may hold two blocks in memory per peer, so the first response stops early behind the stalled send and the others overlap with it
 }
 
@@ -46,6 +48,9 @@ func (c c20Case) String() string {
 	}
 	if c.Tight {
 		p += "; the responder's memory allowance for the peer is two blocks"
+	}
+	if c.RespExt {
+		p += "; the responder's request hook sends extension data"
 	}
 	return fmt.Sprintf("%d requests (%s) selector %s workers Q=%d R=%d dedup keys %s%s", c.N, c.Pair, c.Sel, c.Workers[0], c.Workers[1], c.Keys, p)
 }
@@ -112,6 +117,11 @@ func c20Run(cfg vsched.Config, cs c20Case, only int) (*c20Obs, *vsched.Sched) {
 			ropts = append(ropts, gsimpl.MaxMemoryPerPeerResponder(uint64(two)))
 		}
 		r := f.AddNode(peer.ID("R"), rs, ropts...)
+		if cs.RespExt {
+			r.GS.RegisterIncomingRequestHook(func(p peer.ID, rd graphsync.RequestData, ha graphsync.IncomingRequestHookActions) {
+				ha.SendExtensionData(graphsync.ExtensionData{Name: "app/hello", Data: basicnode.NewString("hi")})
+			})
+		}
 		if cs.PauseFirst && only < 0 {
 			pausedOnce := false
 			q.GS.RegisterIncomingBlockHook(func(p peer.ID, rd graphsync.ResponseData, b graphsync.BlockData, ha graphsync.IncomingBlockHookActions) {
@@ -390,6 +400,9 @@ func c20Cases(thorough bool) []c20Case {
 							out = append(out, c20Case{Pair: pair, Sel: sn, Workers: w, Keys: keys, N: n, PauseFirst: true})
 							out = append(out, c20Case{Pair: pair, Sel: sn, Workers: w, Keys: keys, N: n, HoldFirst: true})
 							out = append(out, c20Case{Pair: pair, Sel: sn, Workers: w, Keys: keys, N: n, HoldFirst: true, Tight: true})
+							if keys == "none" && (thorough || n == 2) {
+								out = append(out, c20Case{Pair: pair, Sel: sn, Workers: w, Keys: keys, N: n, HoldFirst: true, RespExt: true})
+							}
 						}
 					}
 				}
